@@ -62,10 +62,10 @@ func c20Apply(w *depWorld, s pState, reqs []c20Req) (pState, error) {
 	return pState{np.DepositTaxRate, np.MaxDepositTax, np.ConfirmationNumber, np.MinDepositAmount}, nil
 }
 
-func c20Menu() [][]c20Req {
+func c20Menu(vals []uint64) [][]c20Req {
 	var m [][]c20Req
-	for _, a := range c20V {
-		for _, b := range c20V {
+	for _, a := range vals {
+		for _, b := range vals {
 			m = append(m, []c20Req{{Kind: "tax", A: a, B: b}})
 		}
 		m = append(m, []c20Req{{Kind: "conf", A: a}}, []c20Req{{Kind: "min", A: a}})
@@ -96,7 +96,12 @@ func safe(s pState) string {
 func runC20(r *mc.Run) {
 	r.Rule = "BFS to fixpoint over bridge parameter states (rate, cap, confirmations, minimum) from three safe genesis corners under DepositTax/Confirmation/MinDeposit requests over a 12-value 64-bit alphabet (plus multi-request lists), each applied by the real ProcessBridgeRequest; in every reachable state deposits of 8 values go through the real MsgNewDeposits handler; oracle = bounds invariant, targeted parameter unchanged by out-of-range requests, 0 <= tax < value, amount > 0, value >= minimum > dust"
 	r.Assumptions = []string{"parameter states are materialised by writing Params on a branch (the handler reads nothing else)", "dust limit fixed at 1000 satoshi in the oracle"}
-	menu := c20Menu()
+	vals := c20V
+	if r.Thorough() {
+		vals = append(append([]uint64{}, c20V...), 2, 546, 9998, 10002, 1<<31, 1<<33, 100_000_000, 100_000_001)
+	}
+	r.Bounds["value_alphabet_size"] = len(vals)
+	menu := c20Menu(vals)
 	corners := []pState{{0, 0, 1, 10000}, {9999, 1, 1, 1001}, {1, 100_000_000, 6, 1 << 62}}
 	seen := map[pState]bool{}
 	var frontier []pState
@@ -200,7 +205,7 @@ func runC20(r *mc.Run) {
 	r.Bounds["bfs_levels_to_fixpoint"] = level
 	r.Bounds["reachable_parameter_states"] = len(seen)
 	r.Sample(c20Detail{From: corners[1], Reqs: menu[17], To: corners[1]})
-	r.Sample(map[string]any{"value_alphabet": c20V, "deposit_values": depValues})
+	r.Sample(map[string]any{"value_alphabet": vals, "deposit_values": depValues})
 	for _, w := range pool {
 		w.close()
 	}
